@@ -58,7 +58,10 @@ def expected(script):
             elif op == 6:
                 barriers[t] += 1
             elif op == 7:
-                atom[x % natomic] += y
+                if z == 1:
+                    conserved += 1
+                else:
+                    atom[x % natomic] += y
             elif op == 8:
                 a, b = x % nmutex, y % nmutex
                 if a != b:
@@ -160,9 +163,9 @@ def generate(rng, max_threads=5):
                     if k < 0.4:
                         ops.append((1, rng.randrange(natomic), rng.choice([rng.randint(1, 1000), (1 << 33) + rng.randint(0, 9), (1 << 40) - 1]), 0))
                     elif k < 0.7:
-                        ops.append((7, rng.randrange(natomic), rng.choice([rng.randint(1, 1000), (1 << 32) + rng.randint(0, 9), (1 << 45) + 3]), 0))
+                        ops.append((7, rng.randrange(natomic), rng.choice([rng.randint(1, 1000), (1 << 32) + rng.randint(0, 9), (1 << 45) + 3]), rng.choice([0, 0, 1])))
                     else:
-                        ops.append((11, rng.randrange(natomic), rng.randint(0, 1000), rng.randrange(2)))
+                        ops.append((11, rng.randrange(natomic), rng.randint(-1000, 1000), rng.randrange(2)))
                 elif profile == "join" or (profile == "mixed" and r < 0.6):
                     ops.append((10, rng.randint(1, 100000), pk(), pk()))
                 elif r < 0.7:
